@@ -127,3 +127,28 @@ V("C03-s-swap-writes", "C03", "silent", (DS,
   "                self.__t[self.counter + 1] = dTime + self.__t[self.counter]\n                self.__y[self.counter + 1] = dState + self.__y[self.counter]\n"))
 V("C03-s-ge", "C03", "silent", (DS, "D.ar_numpy.abs(self.dt) > D.ar_numpy.abs(tf - self.__t[self.counter]):\n                    is_final_step = True", "D.ar_numpy.abs(tf - self.__t[self.counter]) <= D.ar_numpy.abs(self.dt):\n                    is_final_step = True"))
 V("C03-s-capacity-early", "C03", "silent", (DS, "                if self.counter + 1 >= len(self.__y):\n                    total_steps = self.__alloc_space_steps(tf - dTime) + 1", "                if self.counter + 2 >= len(self.__y):\n                    total_steps = self.__alloc_space_steps(tf - dTime) + 1"))
+
+# ---- C04 -----------------------------------------------------------------------------------------
+V("C04-a-unconditional", "C04", "C04.4", (DS, "                if not is_final_step:\n                    self.dt = new_dt", "                if True:\n                    self.dt = new_dt"))
+V("C04-b-symp-half", "C04", "C04.2", (ITY, "            self.final_rhs = rhs(initial_time + self.dTime, initial_state + self.dState, **constants)\n\n        return timestep, (self.dTime, self.dState)", "            self.final_rhs = rhs(initial_time + self.dTime, initial_state + self.dState, **constants)\n\n        return self.dTime * 0.5, (self.dTime, self.dState)"))
+V("C04-c-dtime-half", "C04", "C04.3", (ITY, "        self.dTime = D.ar_numpy.copy(timestep)\n        if self.is_fsal and self.is_explicit:", "        self.dTime = D.ar_numpy.copy(0.5 * timestep)\n        if self.is_fsal and self.is_explicit:"))
+V("C04-d-signed-min", "C04", "C04.1", (ITY, "D.ar_numpy.sign(current_timestep) * D.ar_numpy.minimum(D.ar_numpy.abs(timestep), D.ar_numpy.abs(current_timestep)))", "D.ar_numpy.minimum(timestep, current_timestep))", ), count=2)
+V("C04-e-log-signed", "C04", "C04.1", (IUT, "D.ar_numpy.log(D.ar_numpy.abs(integrator.solver_dict['tau0']))", "D.ar_numpy.log(integrator.solver_dict['tau0'])"))
+V("C04-f-explicit-controller", "C04", "C04.2", (ITY, "        if self.is_adaptive or self.is_implicit:\n            self.solver_dict['redo_count'] = 0", "        if True:\n            self.solver_dict['redo_count'] = 0"))
+V("C04-g-step-modifies", "C04", "C04.2", (ITY, "        self.dTime = D.ar_numpy.copy(timestep)\n        if self.is_fsal and self.is_explicit:", "        timestep = timestep * 1.0000001\n        self.dTime = D.ar_numpy.copy(timestep)\n        if self.is_fsal and self.is_explicit:"))
+V("C04-h-rich-signed", "C04", "C04.1", (ITY, "if D.ar_numpy.abs(dt_z) < D.ar_numpy.abs(timestep):", "if dt_z < timestep:"))
+V("C04-i-clip-dt", "C04", "C04.4", (DS, "                steps += 1\n", "                steps += 1\n                self.dt = 0.5 * self.dt\n"))
+V("C04-s-equiv-guard", "C04", "silent", (ITY, "if D.ar_numpy.abs(dt_z) < D.ar_numpy.abs(timestep):", "if D.ar_numpy.abs(timestep) > D.ar_numpy.abs(dt_z):"))
+
+# ---- C05 -----------------------------------------------------------------------------------------
+V("C05-a-noraise", "C05", "C05.1", (ITY, "                if redo_step:\n                    raise exception_types.FailedToMeetTolerances(", "                if redo_step and False:\n                    raise exception_types.FailedToMeetTolerances("))
+V("C05-b-threshold", "C05", "C05.3", (TPL, "return timestep, bool(corr < 0.9**2)", "return timestep, bool(corr < 1.5)"))
+V("C05-c-estimate-sum", "C05", "C05.4", (ITY, "(self.tableau_final[0, 1:] - self.tableau_final[1, 1:]) * self.stage_values", "(self.tableau_final[0, 1:] + self.tableau_final[1, 1:]) * self.stage_values"))
+V("C05-d-noredo-check", "C05", "C05.1", (ITY, "            if redo_step:\n                for _ in range(self.solver_dict.get(\"num_step_retries\", 64)):", "            if redo_step and self.is_implicit:\n                for _ in range(self.solver_dict.get(\"num_step_retries\", 64)):"))
+V("C05-e-retry-max", "C05", "C05.2", (ITY, "D.ar_numpy.sign(current_timestep) * D.ar_numpy.minimum(D.ar_numpy.abs(timestep), D.ar_numpy.abs(current_timestep)))", "D.ar_numpy.sign(current_timestep) * D.ar_numpy.maximum(D.ar_numpy.abs(timestep), D.ar_numpy.abs(current_timestep)))"), count=2)
+V("C05-f-retry-same", "C05", "C05.2", (ITY, "D.ar_numpy.sign(current_timestep) * D.ar_numpy.minimum(D.ar_numpy.abs(timestep), D.ar_numpy.abs(current_timestep)))", "current_timestep)"), count=2)
+V("C05-g-diff-noh", "C05", "C05.4", (ITY, "            self.solver_dict['diff'] = timestep * self.get_error_estimate()\n            self.solver_dict['initial_state'] = initial_state", "            self.solver_dict['diff'] = self.get_error_estimate()\n            self.solver_dict['initial_state'] = initial_state"))
+V("C05-h-break-always", "C05", "C05.1", (ITY, "                    if not redo_step:\n                        break\n                if redo_step:", "                    if not redo_step or _ > 3:\n                        break\n                if redo_step and _ < 3:"))
+V("C05-i-redo-flipped", "C05", "C05.3", (TPL, "return timestep, bool(corr < 0.9**2)", "return timestep, bool(corr > 0.9**2)"))
+V("C05-j-corr-mismatch", "C05", "C05.3", (TPL, "            timestep = corr * timestep\n            return timestep", "            timestep = (1 + corr) * timestep\n            return timestep"))
+V("C05-s-ge-form", "C05", "silent", (TPL, "return timestep, bool(corr < 0.9**2)", "return timestep, bool(0.81 > corr)"))
